@@ -67,6 +67,15 @@ def check_zip_alignment(ck: Checker, rule: str, fn: Func, call: ast.Call, src_ar
             inner = inner.args[0]
         if not isinstance(inner, ast.Name):
             return None
+        # `dest_list = list(dest_paths)` computed once and shared: a local bound once to a copy of a column
+        for _ in range(2):
+            ds1 = scope_of(fn).get(inner.id)
+            if len(ds1) == 1 and ds1[0].kind in ("assign", "annassign") and ds1[0].value is not None:
+                v1 = ds1[0].value
+                if isinstance(v1, ast.Call) and call_name(v1) in ("list", "tuple") and len(v1.args) == 1 and isinstance(v1.args[0], ast.Name):
+                    inner = v1.args[0]
+                elif isinstance(v1, ast.Name):
+                    inner = v1
         for d in scope_of(fn).get(inner.id):
             v = d.value
             if d.kind == "assign" and is_marker(v, ITEM) and isinstance(v.args[0], ast.Call) and call_name(v.args[0]) == "zip":
